@@ -345,32 +345,39 @@ class _Named:
 
 
 def real_child_report(ran, fail_names, err_names, processes=2,
-                      encoding='utf-8'):
+                      encoding='utf-8', bare_fails=()):
     """run the real process.SubProcess.global_setup()+report() with a captured
-    'original stderr' -> the bytes the child puts on fd 2"""
+    'original stderr' -> (the bytes the child puts on fd 2, exception|None).
+    bare_fails: names appended to runner.failures as bare test objects, the
+    way runner.run_tests appends result.unexpectedSuccesses"""
     rt()
     import zope.testrunner.process as process
     fake_runner = types.SimpleNamespace(
         options=types.SimpleNamespace(resume_layer='samplelayers.LayerX',
                                       processes=processes, verbose=3),
         ran=ran,
-        failures=[(_Named(s), None) for s in fail_names],
+        failures=[(_Named(s), None) for s in fail_names] +
+        [_Named(s) for s in bare_fails],
         errors=[(_Named(s), None) for s in err_names])
     feature = process.SubProcess(fake_runner)
     raw = io.BytesIO()
     wire = io.TextIOWrapper(raw, encoding=encoding, errors='backslashreplace',
                             newline='\n', line_buffering=True)
+    exc = None
     with _LOCK:
         so, se = sys.stdout, sys.stderr
         try:
             sys.stderr = wire
             sys.stdout = io.StringIO()
             feature.global_setup()
-            feature.report()
+            try:
+                feature.report()
+            except Exception as e:      # noqa: B902 - the child would die here
+                exc = e
         finally:
             sys.stdout, sys.stderr = so, se
     wire.flush()
-    return raw.getvalue()
+    return raw.getvalue(), exc
 
 
 # --------------------------------------------------------------------------
@@ -553,6 +560,10 @@ def run_schedule(case):
     }
 
 
+import re as _re
+_DOTS = _re.compile(br'\.+(\r\n?|\n)').match
+
+
 def check_blocks(out, blocks):
     """blocks: [bytes] in the sequential layer order.  Every block must occur in
     ``out`` exactly once, contiguous, at increasing offsets.  -> problem|None"""
@@ -576,6 +587,8 @@ def check_blocks(out, blocks):
     # marker lines must not appear anywhere else
     for i, blk in enumerate(blocks):
         for ln in set(blk.splitlines(True)):
+            if _DOTS(ln):
+                continue            # keep-alive dots are not layer output
             if out.count(ln) != blk.count(ln):
                 return 'line-duplicated-or-lost', i
     return None
@@ -713,9 +726,12 @@ except SystemExit as e:
 except BaseException as e:
     res['exc'] = type(e).__name__ + ': ' + str(e)
     traceback.print_exc(file=sys.stdout)
+def _name(entry):
+    # unexpected successes are appended as bare tests, not (test, exc_info)
+    return str(entry[0]) if isinstance(entry, tuple) else str(entry)
 res.update(failed=bool(r.failed), ran=r.ran,
-           failures=[str(f[0]) for f in r.failures],
-           errors=[str(e[0]) for e in r.errors],
+           failures=[_name(f) for f in r.failures],
+           errors=[_name(e) for e in r.errors],
            import_errors=[getattr(e, 'module', str(e)) for e in r.import_errors])
 sys.stdout.flush()
 with open(sys.argv[2], 'w') as f:
@@ -918,3 +934,70 @@ def expected_of_world(world):
     return {'ran': ran, 'failures': fails, 'errors': errs,
             'layer_bad': layer_bad, 'bad_import': bad_import,
             'failed': bool(fails or errs or layer_bad or bad_import)}
+
+
+# --------------------------------------------------------------------------
+# the CLI itself: zope.testrunner.run() -> process exit status
+# --------------------------------------------------------------------------
+
+CLI = _boot.BOOT + r'''
+import json, sys
+from zope.testrunner import run
+spec = json.load(open(sys.argv[1]))
+run(args=spec['args'], script_parts=spec['script_parts'], cwd=spec['cwd'])
+'''
+
+
+def run_cli(top, extra_args=(), timeout=60.0, cwd=None, barriers=False):
+    """the real ``zope.testrunner.run`` in a process of its own
+    -> dict(status, out, timed_out)"""
+    fd, specf = tempfile.mkstemp(prefix='cli-', suffix='.json', dir=top)
+    with os.fdopen(fd, 'w') as f:
+        json.dump({'args': ['test', '--path', top] + list(extra_args),
+                   'script_parts': _boot.CHILD_SCRIPT_PARTS,
+                   'cwd': cwd or top}, f)
+    env = dict(os.environ)
+    env.pop('ZTR_BARRIERS', None)
+    env['PYTHONDONTWRITEBYTECODE'] = '1'
+    if barriers:
+        env['ZTR_BARRIERS'] = '1'
+    outf = specf + '.out'
+    with open(outf, 'wb') as of:
+        p = subprocess.Popen([PY, '-u', '-c', CLI, specf], stdout=of,
+                             stderr=subprocess.STDOUT,
+                             stdin=subprocess.DEVNULL, cwd=top, env=env,
+                             start_new_session=True)
+        _ACTIVE.add(p)
+        timed_out = False
+        try:
+            p.wait(timeout)
+        except subprocess.TimeoutExpired:
+            timed_out = True
+        finally:
+            try:
+                os.killpg(p.pid, signal.SIGKILL)
+            except Exception:
+                pass
+            p.wait()
+            _ACTIVE.discard(p)
+    with open(outf, 'rb') as f:
+        out = f.read().decode('utf-8', 'replace')
+    for fn in (specf, outf):
+        try:
+            os.unlink(fn)
+        except OSError:
+            pass
+    return {'status': p.returncode, 'out': out, 'timed_out': timed_out}
+
+
+def layers_in_child(world, args):
+    """which layers of the world run in a subprocess for these arguments:
+    -j N (N > 1): all of them; otherwise the layers after the first one whose
+    tearDown is not supported"""
+    jn = any(a.startswith('-j') and a not in ('-j1', '-j') for a in args)
+    flags, seen_nie = [], False
+    for ly in world['layers']:
+        flags.append(bool(jn or seen_nie))
+        if any(a[0] == 'nie' for a in ly.get('teardown', [])):
+            seen_nie = True
+    return flags
